@@ -547,7 +547,9 @@ func (d *decoderImpl) decodeNullableValue(v reflect.Value) error {
 	if v.Kind() != reflect.Ptr {
 		return cerrors.Wrap(ErrIllegalType, "IllegalType(NotPointer)")
 	}
-	if err := d.decodeValue(v); err == ErrNilValue {
+	// ErrNilValue means "this item is null" only if no container was opened
+	// for it; a null found inside an opened list is a format error.
+	if err := d.decodeValue(v); err == ErrNilValue && d.child == nil {
 		elem := v.Elem()
 		elem.Set(reflect.Zero(elem.Type()))
 		return nil
@@ -667,7 +669,7 @@ func (d *decoderImpl) decodeValue(v reflect.Value) error {
 	case reflect.Ptr:
 		v2 := reflect.New(elem.Type().Elem())
 		if err := d.decodeValue(v2); err != nil {
-			if err == ErrNilValue {
+			if err == ErrNilValue && d.child == nil {
 				v2 = reflect.Zero(elem.Type())
 			} else {
 				return err
